@@ -114,6 +114,9 @@ def recipe(r, d, maxd):
 
 def bad_recipe(r):
     kind = r.choice(['intkey', 'npkey', 'tuplekey', 'object', 'complex', 'bytes', 'deep_intkey', 'deep_object'])
+    if r.random() < 0.05:
+        # known finding F6: types outside the supported list that orjson handles by itself
+        kind = r.choice(['datetime', 'uuid', 'enum', 'dataclass'])
     return {'t': 'bad', 'k': kind, 'inner': recipe(r, 2, 3)}
 
 
@@ -144,6 +147,20 @@ def _some_function(x):
 
 class _Unsupported:
     pass
+
+
+import enum as _enum
+import dataclasses as _dc
+
+
+class _Color(_enum.Enum):
+    RED = 1
+
+
+@_dc.dataclass
+class _Point:
+    x: int
+    y: int
 
 
 class _SetA(set):
@@ -245,6 +262,16 @@ def build(rc, env):
             return {'a': [inner, {'b': {2: inner}}]}
         if k == 'deep_object':
             return {'a': {'b': [_Unsupported()]}}
+        if k == 'datetime':
+            import datetime
+            return {'v': datetime.datetime(2020, 1, 1)}
+        if k == 'uuid':
+            import uuid
+            return {'v': uuid.UUID(int=7)}
+        if k == 'enum':
+            return {'v': _Color.RED}
+        if k == 'dataclass':
+            return {'v': _Point(1, 2)}
     raise ValueError(rc)
 
 
@@ -415,7 +442,8 @@ def run(spec):
     if spec['kind'] == 'reject':
         try:
             out = S.serialize_value(x)
-            V.check('rejects', False, ('accepted an unsupported value / non-string key', rc['k'], repr(out)[:200]))
+            V.check('rejects', False, ('accepted an unsupported value / non-string key', rc['k'], repr(out)[:200]),
+                    mechanism='orjson-native-type-accepted' if rc['k'] in ('datetime', 'uuid', 'enum', 'dataclass') else None)
         except TypeError:
             V.check('rejects', True)
         except Exception as e:
